@@ -1162,6 +1162,20 @@ def huge_spec(r: random.Random, where: str, n: int) -> tuple:
         if r.random() < 0.5:
             blocks.insert(r.randrange(2), {"mode": BYPOS, "context": [[keys.pop(), [1, 2]]], "source": None})
         spec = {"combine": r.choice(MODES) if len(blocks) == 1 else COMB, "max_runs": cap, "blocks": blocks}
+    elif where == "source_product":
+        # a source whose columns are combined combinatorially: 6..9 columns of 8..12 values = 1e6..1e9 rows of the part
+        ncol = r.randrange(6, 10)
+        per = r.randrange(8, 13)
+        fmt = r.choice(["json", "yaml"])
+        hdr = [keys.pop() for _ in range(ncol)]
+        name = f"hugesrc_{n}." + fmt
+        files[name] = {"format": fmt, "shape": "columns", "columns": [[h, rng_list(per, 3 * i)] for i, h in enumerate(hdr)]}
+        src = {"file": name, "format": fmt, "select": None, "rename": [], "mode": COMB}
+        blocks = [{"mode": r.choice(MODES), "context": [], "source": src}]
+        if r.random() < 0.5:
+            blocks[0]["context"] = [[keys.pop(), [1, 2]]]
+            blocks[0]["mode"] = COMB
+        spec = {"combine": COMB, "max_runs": cap, "blocks": blocks}
     else:  # context_x_source
         L = r.randrange(1000, 4000)
         R = r.randrange(1000, 4000)
